@@ -285,7 +285,7 @@ def write_cases():
                 ctx.oblige("set_slice: length is max(len, stop)", ie(bv.length) == z3.If(e.e > ie(old_len), e.e, ie(old_len)))
                 ctx.oblige("set_slice: bytes in [start, stop) are the value's, every other byte is unchanged, a gap is zero-filled", z3.Implies(O >= 0, view(bv, O) == z3.If(z3.And(O >= s.e, O < e.e), xview(O - s.e), view_frozen(O))))
                 if vsnap is not None:
-                    ctx.oblige("set_slice: the value written is not modified", z3.BoolVal(unchanged(value, vsnap)))
+                    ctx.oblige("set_slice: the value written is not modified and the target keeps a container of its own", z3.BoolVal(unchanged(value, vsnap) and bv.chunks is not value.chunks))
 
             out.append(Case(f"{PROP}/bytevec.ByteVec.set_slice", f"{k} chunk(s), value = {vname}", harness_set_slice, replay=replay_aliasing if vname.startswith("ByteVec") else replay_model, sources=SRC))
 
@@ -300,15 +300,18 @@ def write_cases():
                 L = SymInt(z3.Int("width"))
                 ctx.assume(L.e >= 1)
                 value, xview = build(ctx, L)
+                vsnap = snapshot(value) if isinstance(value, ByteVec) else None
                 ok, _ = guarded(interp, lambda: interp.call(ByteVec.__dict__["append"], [bv, value], {}))
                 if not ok:
                     return
                 wf, types_ok = wf_facts(bv)
                 ctx.oblige("append: representation stays well-formed, elements are immutable chunks", z3.And(wf, z3.BoolVal(types_ok)))
                 ctx.oblige("append: length grows by the length of the value", ie(bv.length) == ie(old_len) + L.e)
+                if isinstance(value, ByteVec):
+                    ctx.oblige("append: the receiver keeps a container of its own (it never adopts the container of the ByteVec it is given), and the value is not modified", z3.BoolVal(bv.chunks is not value.chunks and unchanged(value, vsnap)))
                 ctx.oblige("append: old bytes unchanged, then the value's bytes", z3.Implies(O >= 0, view(bv, O) == z3.If(O < ie(old_len), view_frozen(O), z3.If(O < ie(old_len) + L.e, xview(O - ie(old_len)), 0))))
 
-            out.append(Case(f"{PROP}/bytevec.ByteVec.append", f"{k} chunk(s), value = {vname}", harness_append, sources=SRC))
+            out.append(Case(f"{PROP}/bytevec.ByteVec.append", f"{k} chunk(s), value = {vname}", harness_append, replay=replay_append_alias, sources=SRC))
 
     def harness_append_empty(interp):
         ctx = interp.ctx
@@ -446,6 +449,18 @@ def replay_aliasing(r):
     if m.unwrap() != b"abcd" or c.unwrap() != b"abcd":
         return {"reproduced": True, "detail": f"m = ByteVec(4 zero bytes); v = ByteVec(b'abcd'); m.set_slice(0, 4, v) stored the caller's ByteVec itself; after v.set_byte(0, 0x21) the target reads {m.unwrap()!r} and a copy taken before reads {c.unwrap()!r}", "inputs": "aligned set_slice with a ByteVec value, then a write to the value"}
     return {"reproduced": False, "detail": "a write to the value after set_slice does not reach the target or its copies"}
+
+
+def replay_append_alias(r):
+    v = ByteVec(b"abcd")
+    m = ByteVec()
+    m.append(v)
+    m.set_byte(0, 0x21)
+    c = ByteVec(v)
+    v.set_byte(1, 0x7E)
+    if v.unwrap()[:1] != b"a" or c.unwrap() != b"abcd" or m.unwrap() != b"!bcd":
+        return {"reproduced": True, "detail": f"v = ByteVec(b'abcd'); m = ByteVec(); m.append(v); m.set_byte(0, 0x21); c = ByteVec(v); v.set_byte(1, 0x7e): v reads {v.unwrap()!r} (expected b'a~cd'), m reads {m.unwrap()!r} (expected b'!bcd'), c reads {c.unwrap()!r} (expected b'abcd'): an empty receiver adopted the argument's chunk container", "inputs": "append of a ByteVec to an empty ByteVec, then writes on both"}
+    return replay_model(r)
 
 
 def replay_copy(r):
